@@ -446,6 +446,30 @@ def scenario(c, inst, props):
             # continuation to the requested end
             if not infinite:
                 rem = absval(c, tf - T[-1])
+                if inst.get("continue_with_events") and bool(rem >= 1.0 / 64) and bool(rem <= 2 * absval(c, a.dt)):
+                    # the caller continues WITH the same events (stop, continue, possibly stop again): whatever the detector reports on the way
+                    # is recorded under the same rules - in particular the terminal event that ends the second leg, also when another event's
+                    # root coincides with it
+                    n_calls0 = len(oracle.calls)
+                    oracle.max_calls += 3
+                    oracle.max_total += 2
+                    with patched(ds, "handle_events", oracle):
+                        st2, r2 = run(a.integrate, events=events, callback=[spans.cap_callback(c, 6, kind)])
+                    if st2 != "ok":
+                        cause = getattr(r2, "__cause__", None)
+                        if not isinstance(cause, StepCap):
+                            c.check(P9 + ".continue_with_events.returns", False, info=repr(r2) + " / " + repr(cause))
+                        return
+                    rec2 = list(a.events)
+                    spec2 = spec_events(c, oracle)
+                    c.check(P9 + ".continue_with_events.every_detected_crossing_is_recorded_once", len(rec2) == len(spec2) and
+                            c.all([c.all([c.eq(e.t, s_["root"]), e.event is s_["ev"]]) for e, s_ in zip(rec2, spec2)]), info=dict(rec=len(rec2), spec=len(spec2)))
+                    new_calls = oracle.calls[n_calls0:]
+                    stops = [call for call in new_calls if call["terminate"]]
+                    if stops:
+                        troot2 = stops[-1]["reported"][-1]["root"]
+                        c.check(P9 + ".continue_with_events.second_stop_is_at_its_event", c.le(absval(c, a.t[-1] - troot2), scale))
+                    return
                 if bool(rem >= 1.0 / 64) and bool(rem <= 2 * absval(c, a.dt)):
                     n0 = len(a.t)
                     st2, r2 = run(a.integrate, callback=[spans.cap_callback(c, 6, kind)])
